@@ -500,6 +500,12 @@ func runC02(c *Ctx) {
 		}
 	}
 
+	// ---------------------------------------------------------------- R14
+	c.rule("R14", "a reply that is already delivered wins over the caller's context and over write errors; the reply wait ends when the reader has returned, not when the connection was closed", 4)
+	checkDeliveredReplyWins(c)
+	checkReaderDoneWakesWaiters(c)
+	checkWaitingDeadlineUnconditional(c)
+
 	// ---------------------------------------------------------------- R13
 	c.rule("R13", "the datagram reader offers the whole receive buffer to every read (a buffer cut to an earlier, short datagram makes the reader drop every later reply)", 1)
 	checkDatagramReadBuffer(c)
